@@ -126,7 +126,7 @@ def wgdiv(ctx) -> None:
                     if atoms & mask_atoms:
                         bad.append((dv, atoms & mask_atoms))
             ok = not bad
-            ctx.ob("WGDIV", f"{e.func.qualname}|{util.text(e.node, 70)}", e.loc(), ok,
+            ctx.ob("WGDIV", f"{e.func.qualname}|{util.akey(e.node, e.func, 70)}", e.loc(), ok,
                    "no branch of this where() divides by a value that the mask itself is computed from" if ok else
                    f"torch.where({show(m)[:50]}, …) selects between branches one of which divides by "
                    f"{show(bad[0][0])[:60]}, computed from the same data as the mask ({sorted(show(x) for x in bad[0][1])}): "
@@ -239,7 +239,7 @@ def gradpath(ctx) -> None:
                     bad[(e.lineno, e.name)] = (e, hit)
         total_breakers += len(bad)
         for (ln, name), (e, hit) in bad.items():
-            ctx.ob("GRADPATH", f"{q}|{util.text(e.node, 60)}", e.loc(), False,
+            ctx.ob("GRADPATH", f"{q}|{util.akey(e.node, e.func, 60)}", e.loc(), False,
                    f"{name.lstrip('.')}() is applied to {show(hit)[:70]}, which derives from a differentiable input, on "
                    f"the forward path of emu-sv: the autograd graph is cut and gradients w.r.t. waveform parameters / "
                    f"interaction matrix / initial state silently become zero or None", entry=q)
@@ -265,10 +265,33 @@ def autograd(ctx) -> None:
         if isinstance(n, ast.Assign) and isinstance(n.value, ast.Attribute) and n.value.attr == "saved_tensors" \
                 and isinstance(n.targets[0], ast.Tuple):
             unpack = [util.text(a) for a in n.targets[0].elts]
-    ok = saved is not None and saved == unpack
+    # backward rebuilds the Hamiltonian from the saved tensors: keyword k must receive the tensor saved at the
+    # position of forward's parameter k (and the Krylov decomposition starts from the saved state)
+    itb = Interp(prog, C, inline=lambda c, r, d: False, loop_iters=(1,), max_paths=20000)
+    ok = saved is not None and unpack is not None and len(saved) == len(unpack)
+    detail = ""
+    role_kw = {"omegas": "omegas", "deltas": "deltas", "phis": "phis", "interaction_matrix": "interaction_matrix"}
+    checked = False
+    for pb in itb.run(bwd):
+        for e in pb.events:
+            if e.kind == "call" and e.name.endswith("get_hamiltonian") and not checked:
+                checked = True
+                for kw, pname in role_kw.items():
+                    v = strip_typed(dict(e.kw).get(kw) or e.args.get(kw) or ("bottom",))
+                    if not (v[0] == "unpack" and "saved_tensors" in show(v[1]) and saved is not None
+                            and v[2] < len(saved) and saved[v[2]] == pname):
+                        ok = False
+                        detail = f"get_hamiltonian({kw}=) receives saved tensor #{v[2] if v[0] == 'unpack' else '?'}"
+            if e.kind == "call" and e.name.endswith("double_krylov"):
+                st = strip_typed(e.args.get("state") or ("bottom",))
+                if not (st[0] == "unpack" and saved is not None and st[2] < len(saved) and saved[st[2]] == "state"):
+                    ok = False
+                    detail = "double_krylov does not start from the saved input state"
+    ok = ok and checked
     ctx.ob("AUTOGRAD", "saved tensors order", bwd.loc(), ok,
-           f"backward unpacks ctx.saved_tensors as {unpack}, the order forward saved them" if ok else
-           f"forward saves {saved} but backward unpacks {unpack}: gradients are computed from the wrong tensors")
+           f"backward uses ctx.saved_tensors in the order forward saved them ({saved})" if ok else
+           f"forward saves {saved} but backward uses them inconsistently ({detail or unpack}): gradients are computed "
+           f"from the wrong tensors")
     okp = saved is not None and all(s in inputs for s in saved)
     ctx.ob("AUTOGRAD", "saved tensors are inputs", fwd.loc(), okp,
            "the saved tensors are forward's own inputs" if okp else f"forward saves {saved}, not all are inputs {inputs}")
@@ -337,13 +360,17 @@ def autograd(ctx) -> None:
                    f"needs_input_grad[{i}]: gradients are attributed to the wrong input")
     # forward inputs are in the order the driver passes them (checked by ROLE-sv) and forward's first result is the state
     okr = False
-    for n in ast.walk(fwd.node):
-        if isinstance(n, ast.Return) and isinstance(n.value, ast.Tuple) and len(n.value.elts) == 2:
-            okr = util.text(n.value.elts[0]) == "res"
+    itf = Interp(prog, C, inline=lambda c, r, d: False)
+    for pf in itf.run(fwd):
+        rv = strip_typed(pf.retval) if pf.status == "return" else ("bottom",)
+        if rv[0] == "tuple" and len(rv[1]) == 2:
+            a0, a1 = strip_typed(rv[1][0]), strip_typed(rv[1][1])
+            okr = a0[0] == "unpack" and a0[2] == 0 and a1[0] == "unpack" and a1[2] == 1 and a0[1] == a1[1] \
+                and "evolve" in show(a0[1])
     ctx.ob("AUTOGRAD", "forward result order", fwd.loc(), okr,
            "forward returns (evolved state, hamiltonian)" if okr else "forward no longer returns (state, hamiltonian)")
     # the adjoint state uses the opposite sign in the exponent
-    ops = [g for g in ast.walk(bwd.node) if isinstance(g, ast.FunctionDef) and g.name == "op"]
+    ops = [g for g in ast.walk(bwd.node) if isinstance(g, ast.FunctionDef) and g is not bwd.node]
     signs = set()
     for g in ops:
         for n in ast.walk(g):
